@@ -8,6 +8,8 @@
 // generated script and compare what the Go body recorded / what the script received with
 // what was passed / returned. The driver reads the children's BEGIN/END logs, attributes a
 // child's death to the case that began and did not end, and reports.
+// A second phase (conc.go) puts N concurrent callers into one registration, in normal and
+// -race worker processes (NEEDS: race).
 package main
 
 import (
